@@ -387,4 +387,336 @@ theorem simple_string_sound' (b : Bytes) (v : Bool) (hpos : consumeSimpleString 
         · exact absurd rfl hpos
     · exact absurd rfl hpos
 
+/-! ### completeness: every string of the grammar is accepted -/
+
+theorem leadInfo_facts (b sz lo hi : Nat) (h : Utf8.leadInfo b = some (sz, lo, hi)) :
+    0xC2 ≤ b ∧ 0x80 ≤ lo ∧ hi ≤ 0xBF ∧ (sz = 2 ∨ sz = 3 ∨ sz = 4) := by
+  unfold Utf8.leadInfo at h
+  repeat' split at h
+  all_goals simp_all
+  all_goals omega
+
+theorem noEscape_high (c : UInt8) (h : ¬ c.toNat < 0x80) : noEscape c = false := by
+  have : ¬ c < 0x80 := by rw [UInt8.lt_iff_toNat_lt]; simpa using h
+  simp [noEscape, this]
+
+theorem ne_quote_high (c : UInt8) (h : ¬ c.toNat < 0x80) : (c == 0x22) = false := by
+  simp only [beq_eq_false_iff_ne, ne_eq]
+  intro hc; subst hc; simp at h
+
+theorem decodeRune_of_multi (p t : Bytes) (h : Utf8Multi p) :
+    (Utf8.decodeRune (p ++ t)).2 = p.length ∧ 1 < p.length ∧ ∃ b0 p', p = b0 :: p' ∧ ¬ b0.toNat < 0x80 := by
+  obtain ⟨b0, b1, rest, sz, lo, hi, rfl, hli, hlen, hlo, hhi, hcont⟩ := h
+  obtain ⟨f1, f2, f3, f4⟩ := leadInfo_facts _ _ _ _ hli
+  have hlt : ¬ b0.toNat < Utf8.runeSelf := by simp [Utf8.runeSelf]; omega
+  have hr1 : ¬ (b1.toNat < lo ∨ hi < b1.toNat) := by omega
+  refine ⟨?_, by simp, b0, _, rfl, by omega⟩
+  simp only [List.length_cons] at hlen
+  rcases f4 with rfl | rfl | rfl
+  · have : rest = [] := by cases rest <;> simp_all
+    subst this
+    simp [Utf8.decodeRune, hlt, hli, hr1]
+  · match rest, hlen, hcont with
+    | [b2], _, hcont =>
+      have hc2 : Utf8.isCont b2.toNat = true := hcont b2 (by simp)
+      simp [Utf8.decodeRune, hlt, hli, hr1, hc2]
+  · match rest, hlen, hcont with
+    | [b2, b3], _, hcont =>
+      have hc2 : Utf8.isCont b2.toNat = true := hcont b2 (by simp)
+      have hc3 : Utf8.isCont b3.toNat = true := hcont b3 (by simp)
+      simp [Utf8.decodeRune, hlt, hli, hr1, hc2, hc3]
+
+/-- utf8.FullRune is true whenever an ASCII quote follows the lead byte somewhere -/
+theorem fullRune_of_quote (x : UInt8) (q : Bytes) (hq : (0x22 : UInt8) ∈ q) : Utf8.fullRune (x :: q) = true := by
+  unfold Utf8.fullRune
+  simp only
+  split
+  · rfl
+  split
+  · rfl
+  rename_i sz lo hi hli
+  obtain ⟨f1, f2, f3, f4⟩ := leadInfo_facts _ _ _ _ hli
+  split
+  · rfl
+  rename_i hshort
+  cases q with
+  | nil => simp at hq
+  | cons b1 q' =>
+    simp only
+    split
+    · rfl
+    rename_i hr
+    have hb1 : b1 ≠ 0x22 := by
+      intro hb; subst hb; simp at hr; omega
+    have hq' : (0x22 : UInt8) ∈ q' := by
+      simp only [List.mem_cons] at hq
+      rcases hq with h | h
+      · exact absurd h.symm hb1
+      · exact h
+    cases q' with
+    | nil => simp at hq'
+    | cons b2 q'' =>
+      simp only
+      split
+      · rfl
+      rename_i hc2
+      exfalso
+      have hb2 : b2 ≠ 0x22 := by
+        intro hb; subst hb; simp [Utf8.isCont] at hc2
+      simp only [List.mem_cons] at hq'
+      rcases hq' with h | h
+      · exact hb2 h.symm
+      · cases q'' with
+        | nil => simp at h
+        | cons b3 q3 => simp at hshort; omega
+
+theorem jchars_tail_of_cont (y : UInt8) (t : Bytes) (hy : 0x80 ≤ y.toNat ∧ y.toNat ≤ 0xBF)
+    (h : JChars false (y :: t)) : JChars false t := by
+  generalize hl : y :: t = l at h
+  cases h with
+  | nil => cases hl
+  | cons c r hc hr =>
+    cases hc with
+    | plain x h1 h2 h3 h4 =>
+      simp only [List.cons_append, List.nil_append, List.cons.injEq] at hl
+      obtain ⟨rfl, rfl⟩ := hl
+      rw [UInt8.lt_iff_toNat_lt] at h2; simp at h2; omega
+    | utf8 p hm =>
+      obtain ⟨b0, b1, rest, sz, lo, hi, rfl, hli, -⟩ := hm
+      have := (leadInfo_facts _ _ _ _ hli).1
+      simp only [List.cons_append, List.cons.injEq] at hl
+      obtain ⟨rfl, -⟩ := hl
+      omega
+    | raw x _ _ =>
+      simp only [List.cons_append, List.nil_append, List.cons.injEq] at hl
+      obtain ⟨rfl, rfl⟩ := hl
+      exact hr
+    | esc x _ =>
+      simp only [List.cons_append, List.cons.injEq] at hl
+      obtain ⟨rfl, -⟩ := hl
+      simp at hy
+    | uni a b c d _ _ _ _ _ =>
+      simp only [List.cons_append, List.cons.injEq] at hl
+      obtain ⟨rfl, -⟩ := hl
+      simp at hy
+    | pair a b c d e f g h _ _ _ _ _ _ _ _ _ _ =>
+      simp only [List.cons_append, List.cons.injEq] at hl
+      obtain ⟨rfl, -⟩ := hl
+      simp at hy
+
+/-- skipping `m` continuation-range bytes stays inside the body and keeps it a sequence of chars (lax mode) -/
+theorem cont_peel (m : Nat) (r' rest : Bytes) (hlen : ((r' ++ 0x22 :: rest).take m).length = m)
+    (hall : ∀ b ∈ (r' ++ 0x22 :: rest).take m, 0x80 ≤ b.toNat ∧ b.toNat ≤ 0xBF) (hj : JChars false r') :
+    m ≤ r'.length ∧ JChars false (r'.drop m) := by
+  induction m generalizing r' with
+  | zero => exact ⟨by omega, by simpa using hj⟩
+  | succ m ih =>
+    cases r' with
+    | nil =>
+      have := hall 0x22 (by simp)
+      simp at this
+    | cons y t =>
+      have hy := hall y (by simp)
+      have ht := jchars_tail_of_cont y t hy hj
+      have := ih t (by simpa using hlen) (by intro b hb; exact hall b (by simp [hb])) ht
+      exact ⟨by simp; omega, by simpa using this.2⟩
+
+theorem parseHex_of_hex (a b c d : UInt8) (ha : HexDigit a) (hb : HexDigit b) (hc : HexDigit c) (hd : HexDigit d) :
+    parseHexUint16 [a, b, c, d] = some (hex4Value a b c d) := by
+  simp [parseHexUint16, hexVal_spec, ha, hb, hc, hd, hex4Value]
+
+theorem step_high (v : Bool) (c : UInt8) (t : Bytes) (h : ¬ c.toNat < 0x80) :
+    stringStep v (c :: t) =
+      (if (Utf8.decodeRune (c :: t)).2 > 1 then .cont (Utf8.decodeRune (c :: t)).2 {}
+       else if !Utf8.fullRune (c :: t) then .stop 0 {} .eof
+       else if v then .stop 0 .nvnc .invalidUTF8 else .cont 1 .nvnc) := by
+  rcases decodeRune_high c t h with h' | h'
+  · rcases hd : Utf8.decodeRune (c :: t) with ⟨rune, rn⟩
+    rw [hd] at h'
+    simp only [stringStep, noEscape_high c h, ne_quote_high c h, hd]
+    simp [h']
+  · simp only [stringStep, noEscape_high c h, ne_quote_high c h, h']
+    simp [Utf8.runeError]
+
+theorem step_backslash (v : Bool) (t : Bytes) : stringStep v (0x5C :: t) = stringEscape v (0x5C :: t) := by
+  have h1 : noEscape 0x5C = false := by decide
+  have hd := decodeRune_ascii 0x5C t (by decide)
+  simp only [stringStep, h1, hd]
+  simp
+
+
+theorem utf16_pair_ok (v1 v2 : Nat) (h1 : HighSurrogate v1) (h2 : LowSurrogate v2) :
+    (Utf8.utf16DecodeRune v1 v2 == Utf8.runeError) = false := by
+  obtain ⟨a, b⟩ := h1
+  obtain ⟨c, d⟩ := h2
+  have hh : Utf8.isHighSurrogate v1 = true := by simp [Utf8.isHighSurrogate, a, b]
+  have hl : Utf8.isLowSurrogate v2 = true := by simp [Utf8.isLowSurrogate, c, d]
+  simp only [Utf8.utf16DecodeRune, hh, hl, Bool.and_self, if_true, Utf8.runeError, beq_eq_false_iff_ne, ne_eq]
+  omega
+
+/-- One step of the loop on `c ++ r' ++ '"' :: rest` where `c` is a char of the grammar: the scanner
+continues, by some `k` bytes that stay inside the body, and what remains of the body is again chars. -/
+theorem peel (v : Bool) (c r' rest : Bytes) (hc : JChar v c) (hr : JChars v r') :
+    ∃ k f, stringStep v (c ++ r' ++ 0x22 :: rest) = .cont k f ∧ 1 ≤ k ∧ k ≤ (c ++ r').length ∧
+      JChars v ((c ++ r').drop k) := by
+  cases hc with
+  | plain x h1 h2 h3 h4 =>
+    have hne : noEscape x = true := by simp [noEscape, h1, h2, h3, h4]
+    exact ⟨1, {}, by simp [stringStep, hne], by omega, by simp, by simpa using hr⟩
+  | utf8 p hm =>
+    obtain ⟨hrn, hlen, b0, p', rfl, hhigh⟩ := decodeRune_of_multi c (r' ++ 0x22 :: rest) hm
+    refine ⟨(b0 :: p').length, {}, ?_, by omega, by simp, by simpa using hr⟩
+    have := step_high v b0 (p' ++ r' ++ 0x22 :: rest) hhigh
+    simp only [List.cons_append, List.append_assoc] at this hrn ⊢
+    rw [this, hrn]
+    simp only [hlen, if_true]
+  | raw x hv hx =>
+    subst hv
+    have hhigh : ¬ x.toNat < 0x80 := by rw [UInt8.le_iff_toNat_le] at hx; simp at hx; omega
+    have hstep := step_high false x (r' ++ 0x22 :: rest) hhigh
+    simp only [List.cons_append, List.nil_append]
+    by_cases hrn : (Utf8.decodeRune (x :: (r' ++ 0x22 :: rest))).2 > 1
+    · obtain ⟨hmulti, hle⟩ := decodeRune_multi _ hrn
+      generalize hk : (Utf8.decodeRune (x :: (r' ++ 0x22 :: rest))).2 = rn at *
+      obtain ⟨b0, b1, tl, sz, lo, hi, htake, hli, hlen, hlo, hhi, hcont⟩ := hmulti
+      obtain ⟨f1, f2, f3, f4⟩ := leadInfo_facts _ _ _ _ hli
+      cases rn with
+      | zero => omega
+      | succ m =>
+        simp only [List.take_succ_cons, List.cons.injEq] at htake
+        obtain ⟨rfl, htake⟩ := htake
+        have hlen' : ((r' ++ 0x22 :: rest).take m).length = m := by
+          simp at hle ⊢; omega
+        have hall : ∀ b ∈ (r' ++ 0x22 :: rest).take m, 0x80 ≤ b.toNat ∧ b.toNat ≤ 0xBF := by
+          rw [htake]
+          intro b hb
+          simp only [List.mem_cons] at hb
+          rcases hb with rfl | hb
+          · omega
+          · have := hcont b hb
+            simp only [Utf8.isCont, Bool.and_eq_true, decide_eq_true_eq] at this
+            exact this
+        obtain ⟨g1, g2⟩ := cont_peel m r' rest hlen' hall hr
+        refine ⟨m + 1, {}, ?_, by omega, by simp; omega, by simpa using g2⟩
+        rw [hstep]; simp [hrn]
+    · have hfull := fullRune_of_quote x (r' ++ 0x22 :: rest) (by simp)
+      refine ⟨1, .nvnc, ?_, by omega, by simp, by simpa using hr⟩
+      rw [hstep]; simp [hrn, hfull]
+  | esc x hx =>
+    refine ⟨2, (if x == 0x2F then .nvnc else .nv), ?_, by omega, by simp, by simpa using hr⟩
+    simp only [List.cons_append, List.nil_append]
+    rw [step_backslash]
+    unfold SimpleEscape at hx
+    rcases hx with rfl | rfl | rfl | rfl | rfl | rfl | rfl | rfl <;> simp [stringEscape]
+  | uni a b c d ha hb hc hd hs =>
+    have hp := parseHex_of_hex a b c d ha hb hc hd
+    have hsur : (v && Utf8.isSurrogate (hex4Value a b c d)) = false := by
+      cases v with
+      | false => rfl
+      | true =>
+        have := hs rfl
+        simp only [Surrogate] at this
+        simp only [Bool.true_and, Utf8.isSurrogate, Bool.and_eq_false_iff, decide_eq_false_iff_not]
+        omega
+    refine ⟨6, ValueFlags.nv.join (escapeCanonFlags (hex4Value a b c d) [a, b, c, d]), ?_, by omega, by simp,
+      by simpa using hr⟩
+    simp only [List.cons_append, List.nil_append]
+    rw [step_backslash]
+    simp [stringEscape, lenLt, hp, hsur]
+  | pair a b c d e f g h ha hb hc hd he hf hg hh hhi hlo =>
+    have hp := parseHex_of_hex a b c d ha hb hc hd
+    have hp2 := parseHex_of_hex e f g h he hf hg hh
+    have hsurT : Utf8.isSurrogate (hex4Value a b c d) = true := by
+      obtain ⟨x1, x2⟩ := hhi
+      simp only [Utf8.isSurrogate, Bool.and_eq_true, decide_eq_true_eq]; omega
+    cases v with
+    | false =>
+      refine ⟨6, ValueFlags.nv.join (escapeCanonFlags (hex4Value a b c d) [a, b, c, d]), ?_, by omega, by simp, ?_⟩
+      · simp only [List.cons_append, List.nil_append]
+        rw [step_backslash]
+        simp [stringEscape, lenLt, hp]
+      · have : JChars false ([0x5C, 0x75, e, f, g, h] ++ r') :=
+          JChars.cons _ _ (JChar.uni e f g h he hf hg hh (by intro hv; cases hv)) hr
+        simpa using this
+    | true =>
+      refine ⟨12, ValueFlags.nv.join (escapeCanonFlags (hex4Value a b c d) [a, b, c, d]), ?_, by omega, by simp,
+        by simpa using hr⟩
+      simp only [List.cons_append, List.nil_append]
+      rw [step_backslash]
+      have hdec := utf16_pair_ok _ _ hhi hlo
+      simp [stringEscape, lenLt, hp, hp2, hsurT, hdec]
+
+theorem jchars_cases (v : Bool) (body : Bytes) (h : JChars v body) :
+    body = [] ∨ ∃ c r', JChar v c ∧ JChars v r' ∧ body = c ++ r' ∧ c ≠ [] := by
+  cases h with
+  | nil => exact Or.inl rfl
+  | cons c r hc hr =>
+    refine Or.inr ⟨c, r, hc, hr, rfl, ?_⟩
+    cases hc with
+    | utf8 p hm => obtain ⟨b0, b1, rest, _, _, _, rfl, _⟩ := hm; simp
+    | _ => simp
+
+theorem loop_complete (v : Bool) (len : Nat) : ∀ (body rest : Bytes) (fuel : Nat), body.length ≤ len →
+    JChars v body → body.length + 1 ≤ fuel →
+    ∃ f, stringLoop v fuel (body ++ 0x22 :: rest) = (body.length + 1, f, .ok) := by
+  induction len with
+  | zero =>
+    intro body rest fuel hl _ hf
+    have : body = [] := by cases body <;> simp_all
+    subst this
+    cases fuel with
+    | zero => omega
+    | succ fuel =>
+      have : noEscape 0x22 = false := by decide
+      exact ⟨{}, by simp [stringLoop, stringStep, this]⟩
+  | succ len ih =>
+    intro body rest fuel hl hj hf
+    rcases jchars_cases v body hj with rfl | ⟨c, r', hc, hr, rfl, hne⟩
+    · exact ih [] rest fuel (by simp) JChars.nil hf
+    · obtain ⟨k, f, hstep, hk1, hk2, hrest⟩ := peel v c r' rest hc hr
+      have hcl : (c ++ r').length = c.length + r'.length := List.length_append
+      cases fuel with
+      | zero => omega
+      | succ fuel =>
+        have hdrop : (c ++ r' ++ 0x22 :: rest).drop k = (c ++ r').drop k ++ 0x22 :: rest :=
+          List.drop_append_of_le_length hk2
+        obtain ⟨f', hl'⟩ := ih ((c ++ r').drop k) rest fuel (by simp; omega) hrest (by simp; omega)
+        refine ⟨f.join f', ?_⟩
+        simp only [stringLoop, hstep, hdrop, hl']
+        refine Prod.ext ?_ rfl
+        simp only [List.length_drop]
+        omega
+
+/-- Completeness of `ConsumeString`: every string of the grammar at the start of the input is accepted,
+with exactly its length. -/
+theorem consumeString_complete (b : Bytes) (v : Bool) (n : Nat) (hn : n ≤ b.length) (h : JString v (b.take n)) :
+    ∃ f, consumeString b v = (n, f, .ok) := by
+  obtain ⟨body, hj, htake⟩ := h
+  have hb : b = 0x22 :: (body ++ 0x22 :: b.drop n) := by
+    conv => lhs; rw [← List.take_append_drop n b, htake]
+    simp
+  have hlen : n = body.length + 2 := by
+    have := congrArg List.length htake
+    simp only [List.length_take, List.length_cons, List.length_append, List.length_nil] at this
+    omega
+  obtain ⟨f, hl⟩ := loop_complete v body.length body (b.drop n) ((body ++ 0x22 :: b.drop n).length + 1)
+    (Nat.le_refl _) hj (by simp)
+  refine ⟨f, ?_⟩
+  rw [hb]
+  simp only [consumeString, consumeStringResumable, Nat.lt_irrefl, if_false, gt_iff_lt, beq_self_eq_true, if_true, hl]
+  refine Prod.ext ?_ rfl
+  simp only [hlen] <;> omega
+
+/-- strings are prefix-free: no string of the grammar is a proper prefix of another -/
+theorem jstring_prefix_free (v : Bool) (p q : Bytes) (hp : JString v p) (hq : JString v q) (hpq : p <+: q) : p = q := by
+  obtain ⟨t, rfl⟩ := hpq
+  obtain ⟨f1, h1⟩ := consumeString_complete (p ++ t) v p.length (by simp) (by simpa using hp)
+  obtain ⟨f2, h2⟩ := consumeString_complete (p ++ t) v (p ++ t).length (Nat.le_refl _) (by rw [List.take_length]; exact hq)
+  rw [h1] at h2
+  have : p.length = (p ++ t).length := by simpa using congrArg Prod.fst h2
+  have : t = [] := by
+    simp only [List.length_append] at this
+    exact List.eq_nil_of_length_eq_zero (by omega)
+  simp [this]
+
 end JsonV.Lemmas.WireString
